@@ -54,20 +54,25 @@ def multipliers(ctx, cu):
     return sorted(gs)
 
 
+import re
+_E_UNIT_SCALE = re.compile(r' e (um|dois|três|quatro|cinco|seis|sete|oito|nove) (mil|milhão|milhões|bilhão|bilhões|trilhão|trilhões)$')
+
+
 def parse_pair(o):
     text, toks = o.split('|')
     return uncps(text), [uncps(t) for t in toks.split(';')] if toks else []
 
 
-def defect_class(cu, n, text):
-    """The word class a recorded finding is keyed by."""
+def defect_class(cu, n, text, bad):
+    """The word class a recorded finding is keyed by (`bad` = what went wrong: value / span / split / no-entity)."""
     if cu == 'pt-br':
+        if bad == 'value' and text.endswith(' e mil'):
+            return 'pt-br:cardinal-scale:e-mil'
         if 'catorze' in text:
             return 'pt-br:cardinal:catorze'
         if text.endswith(' e mil'):
             return 'pt-br:cardinal-scale:e-mil'
-        import re
-        if re.search(r' e (um|dois|três|quatro|cinco|seis|sete|oito|nove) (mil|milhão|milhões|bilhão|bilhões)$', text):
+        if _E_UNIT_SCALE.search(text):
             return 'pt-br:cardinal-scale:e-unit-scale'
         return 'pt-br:cardinal-scale:other'
     if cu == 'es-es':
@@ -130,7 +135,7 @@ def run(ctx):
                 property_fails=(a != str(n)))
         elif a != str(n):
             unit_bad.add((cu, n))
-            ctx.report('property', '%s:value' % defect_class(cu, n, text),
+            ctx.report('property', '%s:value' % defect_class(cu, n, text, 'value'),
                        '__get_int_value(%r) = %s, the numeral %r denotes %d' % (toks, a, text, n),
                        failing_input={'culture': cu, 'tokens': toks, 'query': text, 'implementation': a, 'denotes': n},
                        property_fails=True)
@@ -150,7 +155,7 @@ def run(ctx):
             ctx.nontriv((cu, q))
         bad, detail = judge(res, text, off, n, None)
         if bad:
-            ctx.report('property', '%s:%s' % (defect_class(cu, n, text), bad), 'number(%r, %s): %s' % (q, cu, detail),
+            ctx.report('property', '%s:%s' % (defect_class(cu, n, text, bad), bad), 'number(%r, %s): %s' % (q, cu, detail),
                        failing_input={'culture': cu, 'model': 'number', 'query': q, 'numeral': text, 'denotes': n,
                                       'result': res}, property_fails=True)
     ctx.extra['numbig_values_per_culture'] = len(ns)
